@@ -87,6 +87,7 @@ def check(ctx):
     check_rejections(ctx, inner)
     check_layer(ctx, inner)
     check_uns(ctx, inner)
+    check_lookup_by_given_name(ctx)
     from .C05 import check_tiles
     check_tiles(ctx, ('validation.utils', 'validation.validate_h5ad'),
                 floor=8)
@@ -606,3 +607,50 @@ def check_uns(ctx, inner):
                    ok, 'the recorded renaming pairs original and mapped '
                    'names positionally' if ok else
                    f'the recorded renaming is built from {srcs[:80]}')
+
+
+def check_lookup_by_given_name(ctx):
+    """identifiers are classified and looked up exactly as given; clipping
+    of version suffixes (`_post_process`) is applied to the *result*.
+    Clipping first turns known symbols that contain a dot into strings the
+    table does not have, and they are recorded as unmapped."""
+    db = ctx.db
+    fi = db.fn('gene_id.gene_id_mapper:GeneIdMapper.map_gene_identifiers')
+    ctx.touch(fi)
+    cfg = cfg_of(fi)
+    rd = rd_of(fi)
+    ex = Expander(fi)
+    rule = 'R-PROV/lookup-by-given-name'
+    loops = []
+    for n in ast.walk(fi.node):
+        if isinstance(n, ast.For) and any(
+                isinstance(x, ast.Attribute) and x.attr == '_lookup'
+                for x in ast.walk(n)):
+            loops.append(n)
+    if not loops:
+        ctx.fail(rule, 'map_gene_identifiers:loop', fi.loc(),
+                 'the loop that looks identifiers up was not found')
+        return
+    for k, lp in enumerate(loops):
+        hdr = [x for x in cfg.nodes_of(lp) if x.kind == 'for'
+               and x.id in rd.live]
+        t = ex.expand(lp.iter, hdr[0].id) if hdr else None
+        ok = t is not None and t[0] == 'param'
+        ctx.ob(rule, f'map_gene_identifiers:loop#{k}', fi.loc(lp), ok,
+               'identifiers are looked up as the caller gave them' if ok
+               else 'the identifiers that are looked up are '
+               f'{fmt_term(t)[:70] if t else "?"}, not the list as given: '
+               'names altered before the lookup no longer match the table')
+    for n in cfg.nodes:
+        if n.id not in rd.live:
+            continue
+        for c in cfg.calls_in(n):
+            if isinstance(c.func, ast.Attribute) \
+                    and c.func.attr == '_post_process' and c.args:
+                t = ex.expand(c.args[0], n.id)
+                ok = t[0] != 'param'
+                ctx.ob(rule, 'map_gene_identifiers:post-process',
+                       fi.loc(c), ok,
+                       'suffix clipping is applied to the mapped result'
+                       if ok else
+                       'suffix clipping is applied to the input list')
